@@ -13,6 +13,7 @@ package main
 import (
 	"bufio"
 	"bytes"
+	"crypto/sha256"
 	"encoding/hex"
 	"encoding/json"
 	"fmt"
@@ -100,6 +101,12 @@ func verifEvent(name string, kv ...any) {
 		for i := 0; i+1 < len(kv); i += 2 {
 			if sum, ok := kv[i+1].([32]byte); ok {
 				m[kv[i].(string)] = hex.EncodeToString(sum[:])
+				continue
+			}
+			if content, ok := kv[i+1].([]byte); ok {
+				// file contents are reported by their digest
+				sum := sha256.Sum256(content)
+				m[kv[i].(string)+"_sha256"] = hex.EncodeToString(sum[:])
 				continue
 			}
 			m[kv[i].(string)] = kv[i+1]
